@@ -4,7 +4,7 @@ failures in a unit that contains unknown functions are not reported as violation
 import os, sys, json, importlib
 VERIF = os.path.dirname(os.path.dirname(os.path.abspath(__file__)))
 sys.path.insert(0, VERIF)
-UNITS = ['tp', 'ev', 'hv', 'pr', 'lb', 'ds']
+UNITS = ['tp', 'ev', 'hv', 'pr', 'lb', 'ds', 'dd']
 def load():
     p = os.path.join(VERIF, 'contracts', 'expected_fns.json')
     return json.load(open(p)) if os.path.exists(p) else {}
